@@ -133,15 +133,29 @@ package server
 //@ trusted
 //@ pure
 //@ ensures err == nil ==> primaryKey == idxPk(completeKey) && secondaryKey == idxSk(completeKey)
-//@ ensures err != nil ==> primaryKey == ""
-//@ note trusted: regexp and url.PathUnescape are outside the verified subset; both error paths return an empty primary key
+//@ ensures err != nil ==> primaryKey == "" && idxPk(completeKey) == ""
+//@ note trusted: regexp and url.PathUnescape are outside the verified subset; both error paths return an empty primary key (idxPk of a key that does not parse is the empty string: meaning of the ghost function)
 
 // A get on a secondary index answers only with an entry of that index.
 //
+// For FLOOR it also never answers "not found" without having looked at the entry just
+// before the position its seek landed on (that is where the floor is when the seek
+// landed past it — including past the last key of the whole database): "not found" means
+// that entry does not exist, is not an entry of this index, cannot be parsed, or has a
+// secondary key greater than the one asked for.
+//
+//@ ghostfun idxSearchKey(string, string) string
+//@ define floorRejected(db kv.DB, idx string, key string, p int) bool = p < 0 || !inIndex(dbKeyAt(db, p), idx) || idxPk(dbKeyAt(db, p)) == "" || compare.CompareWithSlash(bytes(key), bytes(idxSk(dbKeyAt(db, p)))) < 0
+
 //@ func doSecondaryGet
 //@ property C15
 //@ requires db != nil && req != nil && req.SecondaryIndexName != nil
+//@ assume at call Sprintf#0: result == idxSearchKey(*req.SecondaryIndexName, req.Key) because "meaning of the ghost function: the search key is the range-prefix format applied to the index name and the key asked for"
+//@ loop 0 modifies ghost(pos, it), fresh
+//@ loop 0 invariant it != nil && ghost(n, it) == dbN(db) && -1 <= ghost(pos, it) && ghost(pos, it) <= ghost(n, it)
+//@ loop 0 invariant req.ComparisonType == 1 ==> ghost(pos, it) <= dbLB(db, idxSearchKey(*req.SecondaryIndexName, req.Key)) && (pastEndOfIndex ==> ghost(pos, it) >= dbLB(db, idxSearchKey(*req.SecondaryIndexName, req.Key)) - 1) && (!pastEndOfIndex ==> ghost(pos, it) <= dbLB(db, idxSearchKey(*req.SecondaryIndexName, req.Key)) - 1) && (ghost(pos, it) < dbLB(db, idxSearchKey(*req.SecondaryIndexName, req.Key)) - 1 ==> floorRejected(db, *req.SecondaryIndexName, req.Key, dbLB(db, idxSearchKey(*req.SecondaryIndexName, req.Key)) - 1))
 //@ ensures primaryKey != "" ==> exists k string :: inIndex(k, *req.SecondaryIndexName) && primaryKey == idxPk(k) && secondaryKey == idxSk(k)
+//@ ensures err == nil && primaryKey == "" && req.ComparisonType == 1 ==> floorRejected(db, *req.SecondaryIndexName, req.Key, dbLB(db, idxSearchKey(*req.SecondaryIndexName, req.Key)) - 1)
 //@ modifies *
 
 // the deferred closer of doSecondaryGet
